@@ -5,10 +5,13 @@
 (*   "none" : every tensor is generic (hash values with declared symmetry) *)
 (*   "rspt" : ground-state amplitudes, energies, expectation values from   *)
 (*            determinant-space RSPT (Rspt.tla)                            *)
+(*   "isr"  : additionally the secular matrix / overlaps over explicitly   *)
+(*            constructed intermediate states (Isr.tla)                    *)
 (***************************************************************************)
-EXTENDS Rspt
+EXTENDS Isr
 
 Prepare(M) ==
   CASE M.oracle = "rspt" -> RsptModel(M)
+    [] M.oracle = "isr" -> IsrModel(M)
     [] OTHER -> M
 =============================================================================
